@@ -143,7 +143,7 @@ Lemma upto_after_step m k k1 v1 r : ssorted m -> upto lim (after k m) = (k1, v1)
 Proof.
   intros Hs E. destruct (after k m) as [|[k2 v2] r2] eqn:A; simpl in E; [discriminate|].
   destruct (below_limit lim k2); [|discriminate]. inversion E; subst.
-  rewrite (after_step k m (k1, v1) r2 Hs A). reflexivity.
+  pose proof (after_step k m (k1, v1) r2 Hs A) as X; simpl in X. rewrite X. reflexivity.
 Qed.
 
 Lemma mem_tracksW l : forall L env k v, sorted_env env ->
